@@ -165,9 +165,12 @@ def main(argv=None):
     known = load_known(pid)
     open_known = [k for k in known if k.get("status") == "open"]
     regions = {}
+    whole = set()          # obligations that a known finding covers entirely (every input fails): not re-run, witness replayed
     for k in open_known:
         for obn in k.get("obligations", [k.get("obligation")]):
-            if k.get("region"):
+            if k.get("whole_obligation"):
+                whole.add(obn)
+            elif k.get("region"):
                 regions.setdefault(obn, []).append(k["region"])
 
     bdir = os.path.join(BUILD, pid)
@@ -182,6 +185,8 @@ def main(argv=None):
             if a.only and a.only not in ob.name:
                 continue
             obs.append(ob)
+    all_obs = list(obs)
+    obs = [o for o in obs if o.name not in whole]
     if not obs:
         print(f"INCONCLUSIVE property={pid} no obligations selected")
         return EXIT_BROKEN
@@ -327,7 +332,7 @@ def main(argv=None):
     kf_lines = []
     for k in open_known:
         obn = k.get("obligation") or k.get("obligations", [None])[0]
-        ob = next((o for o in obs if o.name == obn), None)
+        ob = next((o for o in all_obs if o.name == obn), None)
         if ob is None:
             if a.only:
                 continue
